@@ -39,7 +39,8 @@ Proof.
   unfold ex_hist. cbn [wf_hist]. repeat (split; [wf_blk_compute|]). exact I.
 Qed.
 
-(* the history is not trivial: seven blocks are stored, the best block is block 7, block 3 is finalized, qualities 1 2 3 *)
+(* the history is not trivial: seven blocks are stored, the best block is block 7, block 4 is finalized, store-point
+   qualities 1 2 3 4 (blocks 1, 3, 5, 7; listed newest first) *)
 Lemma ex_run_facts :
   get_id (run ex_cfg ex_s0 ex_hist) KBest = Some (bid 7 7) /\
   finalized ex_cfg (run ex_cfg ex_s0 ex_hist) = bid 4 4 /\
